@@ -358,6 +358,7 @@ def rule_quantize_model(rep, repo):
       mock_layer("Activation", "a7"),
   ]
   model = Mock("model", {"layers": layers})
+  o.attrs["model"] = model
   captured = {}
 
   def clone(pe, a, k):
@@ -411,6 +412,7 @@ def rule_quantize_model(rep, repo):
       ([], "[] (empty list)", set()),
       ((), "() (empty tuple)", set())):
     _, _, o2 = hyper(repo, dict(LIMIT), layer_indexes=li)
+    o2.attrs["model"] = model
     cap2 = {}
 
     def mq2(pe, a, k, cap2=cap2):
@@ -447,6 +449,7 @@ def rule_quantize_model(rep, repo):
          mock_layer("Dense", "fc"),
          mock_layer("BatchNormalization", "prefc_bn")]
   model4 = Mock("model", {"layers": ls4})
+  o4.attrs["model"] = model4
   cap4 = {}
 
   def mq4(pe, a, k):
@@ -480,6 +483,7 @@ def rule_quantize_model(rep, repo):
           mock_layer("Dense", "fc_out", units=3),
           mock_layer("Conv2D", "conv_out", filters=5)]
     model3 = Mock("model", {"layers": ls})
+    o3.attrs["model"] = model3
     pe3 = PE(repo, module_overrides={AQ: {
         "clone_model": lambda pe, a, k: model3,
         "model_quantize": lambda pe, a, k: Mock("qmodel", {})}})
@@ -509,6 +513,54 @@ def rule_quantize_model(rep, repo):
               "tune_filters=%s creates the filter hyper-parameters %s, "
               "expected %s" % (mode, sorted(set(names)), sorted(want_n)),
               loc=loc)
+    # two consecutive trials of one hyper-model: every trial scales the
+    # REFERENCE architecture (clone_model hands out a fresh copy per call,
+    # as the real one does); neither the reference nor an earlier trial's
+    # scaling carries over
+    _, _, o5 = hyper(repo, {"Dense": [4, 4, 4], "Conv2D": [4, 4, 4]},
+                     tune_filters=mode, exceptions="_out$")
+    ref = Mock("model", {"layers": [mock_layer("Dense", "d0", units=16),
+                                    mock_layer("Conv2D", "c1", filters=8)]})
+    clones = []
+
+    def fresh(pe, a, k, ref=ref, clones=clones):
+      src = a[0] if a and isinstance(a[0], Mock) else ref
+      cp = Mock("model", {"layers": [
+          mock_layer(l.attrs["__class__"].attrs["__name__"],
+                     l.attrs["name"], units=l.attrs["units"],
+                     filters=l.attrs["filters"])
+          for l in src.attrs["layers"]]})
+      clones.append(cp)
+      return cp
+    o5.attrs["model"] = ref
+    seen = []
+    handed = []
+    pe5 = PE(repo, module_overrides={AQ: {
+        "clone_model": fresh,
+        "model_quantize": lambda pe, a, k: (handed.append(a[0]),
+                                            Mock("qmodel", {}))[1]}})
+    try:
+      for _ in range(2):
+        pe5.call_func(Func(fn, aq, [], "quantize_model", o5, c),
+                      [Hp().mock()], {})
+        m_ = handed[-1] if handed else None
+        seen.append({l.attrs["name"]: l.attrs["units" if l.attrs[
+            "__class__"].attrs["__name__"] == "Dense" else "filters"]
+                     for l in m_.attrs["layers"]} if isinstance(
+                         m_, Mock) and "layers" in m_.attrs else None)
+    except PyRaise as e:
+      rep.fail("R3", unit, "second-trial-raises:tune_filters=" + mode,
+               "a second quantize_model call raises %s" % e, loc=loc)
+      continue
+    want2 = {"d0": 32, "c1": 16}
+    refnow = {l.attrs["name"]: l.attrs["units" if l.attrs["__class__"].attrs[
+        "__name__"] == "Dense" else "filters"] for l in ref.attrs["layers"]}
+    rep.check(seen == [want2, want2] and refnow == {"d0": 16, "c1": 8},
+              "R3", unit, "filter-scaling-second-trial:" + mode,
+              "tune_filters=%s, factor 2.0 in two consecutive trials: the "
+              "models handed to model_quantize have units/filters %s, "
+              "expected %s both times; the reference model now has %s" %
+              (mode, seen, want2, refnow), loc=loc)
   # R5 key agreement with model_quantize
   rk = reader_keys(repo)
   if len(rk) < 8:
